@@ -23,9 +23,10 @@ Steps(c) == CASE c = "push" -> <<"PUSHNAT">>
               [] c = "dropall" -> <<"DROPALL">>
               [] c = "storage" -> <<"STORAGE">>
               [] c = "parambm" -> <<"PARAMBM">>            \* declare  parameter (big_map string nat)
+              [] c = "lbm" -> <<"LISTBM">>                 \* a list holding a fresh big_map: a context-bound value below another constructor
               [] c = "sap" -> <<"SAPLING">>                \* SAPLING_EMPTY_STATE 8: another kind of value that is bound to the session's context
               [] c = "beginptr" -> <<"BEGINPTR">>          \* BEGIN 5 {} : the parameter is the on-chain big_map 5, which gets registered in the context
-Cells == {"push", "newbm", "newbm2", "upd", "del", "begin", "commit", "drop", "dropall", "storage", "parambm", "beginptr", "sap"}
+Cells == {"push", "newbm", "newbm2", "upd", "del", "begin", "commit", "drop", "dropall", "storage", "parambm", "beginptr", "sap", "lbm"}
 
 VARIABLES stack, tmp, alloc, commits, ptype, regs, hist, fails
 vars == <<stack, tmp, alloc, commits, ptype, regs, hist, fails>>
@@ -45,6 +46,7 @@ StepOn(st, p) ==
     [] p = "UPDATE" -> IF Len(s) >= 3 /\ s[1] = <<"str">> /\ s[2] = <<"opt">> /\ s[3][1] = "bm" THEN <<SubSeq(s, 3, Len(s)), t, a, cm, pt, rg>> ELSE Stuck
     [] p = "BEGIN" -> IF pt = "unit" THEN <<<< <<"begun", -(t + 1)>> >>, t + 1, a, cm, pt, rg>> ELSE Stuck           \* the storage literal {} becomes a temporary big_map
     [] p = "CDR" -> IF Len(s) >= 1 /\ s[1][1] = "begun" THEN <<<< <<"bm", s[1][2]>> >> \o Tail(s), t, a, cm, pt, rg>> ELSE Stuck
+    [] p = "LISTBM" -> <<<< <<"lst", -(t + 1)>> >> \o s, t + 1, a, cm, pt, rg>>
     [] p = "SAPLING" -> <<<< <<"sap">> >> \o s, t, a, cm, pt, rg>>
     [] p = "NILOP" -> <<<< <<"ops">> >> \o s, t, a, cm, pt, rg>>
     [] p = "PAIR" -> IF Len(s) >= 2 /\ s[1] = <<"ops">> /\ s[2][1] = "bm" THEN <<<< <<"res", s[2][2]>> >> \o SubSeq(s, 3, Len(s)), t, a, cm, pt, rg>> ELSE Stuck
